@@ -6,7 +6,8 @@ SPEC = {
     "id": "C28",
     "level": "proof",
     "lean_modules": ["PallasVerif.Props.C28"],
-    "required_theorems": ["initiator_conformant_fails_at_witness", "emit_permitted_by_own_view"],
+    "required_theorems": ["initiator_conformant_fails_at_witness", "initiator_conformant_partial", "emit_permitted_by_own_view",
+                          "lockstep_is_schedule", "lockstep_run_is_schedule"],
     "streams": [{"name": "p2p_sched", "quick": 300, "thorough": 8000}],
     "rule": "schedules (10..300 steps, 1..3 peers) of commands (hk/idle, include, startsync, continuesync, reqblocks, fetcheb, "
             "ban/demote) interleaved with connect / confirm (Sent) / arrive / reply (7 protocols, 1..4 reply choices) / deliver "
@@ -24,8 +25,10 @@ SPEC = {
         "real TCP timing is abstracted into the schedule space (any interleaving of confirm/arrive/reply/deliver per connection, "
         "FIFO per direction); Sent/Recv are only produced for live connections; Disconnected is delivered when the connection is dropped",
         "the simulated responder never emits on tx-submission (the initiator never sends Init)",
+        "partial: initiator_conformant_partial covers lock-step schedules only (every Send confirmed and delivered to the responder "
+        "before the next schedule step); delayed confirmations are outside the theorem (and violate the property: known finding)",
     ],
     "explanation": "self-tests on the pallas worktree (reverted afterwards): chainsync visit_tagged without the is_idle guard -> "
-                   "VIOLATION (nonconformant cs.reqnext ... previous-sends-confirmed) and broken obligation chainsyncTagged_send; "
+                   "VIOLATION (nonconformant cs.reqnext in-state-A, replay of 14 steps); "
                    "keepalive guard inverted -> VIOLATION; logging / let-else refactor of blockfetch peer_is_available -> quiet.",
 }
